@@ -805,13 +805,26 @@ fn sym_token_line(o: u32, fr: &serde_json::Value) -> String {
 /// A helper-supplied symbol map that returns `Available(vec![])` (against the documented contract "the last
 /// element is always the outer function") makes create_response panic: then every offset is asked alone.
 fn symbolicate_lines(sm: &SymbolManager<RecHelper>, m: &ModuleSpec, offsets: &[u32], addrs: &[u32], stats: Option<&mut Stats>) -> Vec<String> {
+    symbolicate_lines_with(
+        &|body| {
+            std::panic::catch_unwind(std::panic::AssertUnwindSafe(|| {
+                futures::executor::block_on(samply_api::Api::new(sm).query_api("/symbolicate/v5", body))
+            }))
+            .ok()
+        },
+        m,
+        offsets,
+        addrs,
+        stats,
+    )
+}
+
+/// `query(body)` = the response of `/symbolicate/v5`, `None` if it panicked
+fn symbolicate_lines_with(query: &dyn Fn(&str) -> Option<String>, m: &ModuleSpec, offsets: &[u32], addrs: &[u32], stats: Option<&mut Stats>) -> Vec<String> {
     let run = |addrs: &[u32]| -> Option<serde_json::Value> {
         let frames: Vec<serde_json::Value> = addrs.iter().map(|a| serde_json::json!([0, a])).collect();
         let body = serde_json::json!({ "memoryMap": [[m.debug_name, m.breakpad_id]], "stacks": [frames] }).to_string();
-        let resp = std::panic::catch_unwind(std::panic::AssertUnwindSafe(|| {
-            futures::executor::block_on(samply_api::Api::new(sm).query_api("/symbolicate/v5", &body))
-        }))
-        .ok()?;
+        let resp = query(&body)?;
         Some(serde_json::from_str(&resp).unwrap_or(serde_json::Value::Null))
     };
     match run(addrs) {
@@ -1584,6 +1597,413 @@ fn gen_case(rng: &mut Rng, tier: Tier, family: u64) -> Vec<String> {
 }
 
 // ---------------------------------------------------------------------------------------------
+// real wholesym over real files (`helper w`): `WholesymFileLocation::location_for_source_file` and
+// `Helper::load_file` of wholesym itself decide what is read; the observable is the bytes returned
+// ---------------------------------------------------------------------------------------------
+
+/// Paths in the ops are written under `/ROOT`; at run time that is a fresh directory below
+/// `$VERIF_ROOT/.work/C09/tmp`.
+const WS_ROOT: &str = "/ROOT";
+
+#[derive(Clone, Debug)]
+enum FsEntry {
+    Dir(String),
+    File(String, usize),
+    Link(String, String),
+}
+
+fn ws_real(s: &str, root: &str) -> String {
+    s.replace(WS_ROOT, root)
+}
+fn ws_virtual(s: &str, root: &str) -> String {
+    s.replace(root, WS_ROOT)
+}
+
+fn ws_helper_line(sym_path: &str, fs: &[FsEntry]) -> String {
+    let mut s = format!("helper w l,{},ok", hx(sym_path));
+    for e in fs {
+        match e {
+            FsEntry::Dir(p) => s.push_str(&format!(" D,{}", hx(p))),
+            FsEntry::File(p, n) => s.push_str(&format!(" F,{},{n}", hx(p))),
+            FsEntry::Link(p, t) => s.push_str(&format!(" L,{},{}", hx(p), hx(t))),
+        }
+    }
+    s
+}
+
+fn ws_parse_helper(l: &str) -> Option<(String, Vec<FsEntry>)> {
+    let w: Vec<&str> = l.split_whitespace().collect();
+    if w.len() < 3 || w[0] != "helper" || w[1] != "w" {
+        return None;
+    }
+    let sym_path = unhx(w[2].split(',').nth(1)?);
+    let mut fs = Vec::new();
+    for t in &w[3..] {
+        let p: Vec<&str> = t.split(',').collect();
+        fs.push(match (p[0], p.len()) {
+            ("D", 2) => FsEntry::Dir(unhx(p[1])),
+            ("F", 3) => FsEntry::File(unhx(p[1]), p[2].parse().ok()?),
+            ("L", 3) => FsEntry::Link(unhx(p[1]), unhx(p[2])),
+            _ => return None,
+        });
+    }
+    Some((sym_path, fs))
+}
+
+/// one materialised case: the directory, wholesym's own symbol manager over it, a runtime for `tokio::fs`
+struct WsEnv {
+    root: String,
+    sm: wholesym::SymbolManager,
+    rt: tokio::runtime::Runtime,
+}
+
+impl Drop for WsEnv {
+    fn drop(&mut self) {
+        let _ = std::fs::remove_dir_all(&self.root);
+    }
+}
+
+fn ws_setup(m: &ModuleSpec, sym_path: &str, fs: &[FsEntry]) -> Option<WsEnv> {
+    static N: std::sync::atomic::AtomicU64 = std::sync::atomic::AtomicU64::new(0);
+    let base = std::env::var("VERIF_ROOT").unwrap_or_else(|_| concat!(env!("CARGO_MANIFEST_DIR"), "/..").to_string());
+    let root = format!("{base}/.work/C09/tmp/ws-{}-{}", std::process::id(), N.fetch_add(1, std::sync::atomic::Ordering::SeqCst));
+    let root = {
+        std::fs::create_dir_all(&root).ok()?;
+        std::fs::canonicalize(&root).ok()?.to_string_lossy().to_string()
+    };
+    for e in fs {
+        match e {
+            FsEntry::Dir(p) => std::fs::create_dir_all(ws_real(p, &root)).ok()?,
+            FsEntry::File(p, n) => std::fs::write(ws_real(p, &root), vec![b'x'; *n]).ok()?,
+            FsEntry::Link(p, t) => std::os::unix::fs::symlink(t, ws_real(p, &root)).ok()?,
+        }
+    }
+    let text = match &m.kind {
+        ModuleKind::Sym(b) => ws_real(&String::from_utf8_lossy(b), &root),
+        _ => return None,
+    };
+    let sym_real = ws_real(sym_path, &root);
+    std::fs::create_dir_all(dir_of(&sym_real)).ok()?;
+    std::fs::write(&sym_real, text).ok()?;
+    let config = wholesym::SymbolManagerConfig::new().extra_symbol_directory(dir_of(&sym_real));
+    let sm = wholesym::SymbolManager::with_config(config);
+    let rt = tokio::runtime::Builder::new_current_thread().enable_all().build().ok()?;
+    Some(WsEnv { root, sm, rt })
+}
+
+impl WsEnv {
+    fn query(&self, path: &str, body: &str) -> Option<String> {
+        std::panic::catch_unwind(std::panic::AssertUnwindSafe(|| self.rt.block_on(self.sm.query_json_api(path, body)))).ok()
+    }
+    /// `loaded` and `lookup` lines through wholesym's `load_symbol_map` + `SymbolMap::lookup`
+    fn oracle(&self, m: &ModuleSpec, sym_path: &str, offsets: &[u32]) -> (String, Vec<(String, Frames)>) {
+        let id = match DebugId::from_breakpad(&m.breakpad_id) {
+            Ok(id) => id,
+            Err(_) => return ("loaded e".to_string(), offsets.iter().map(|_| ("nosymbols".to_string(), Vec::new())).collect()),
+        };
+        let mut loaded = String::from("loaded e");
+        let looks = offsets
+            .iter()
+            .map(|&o| {
+                self.rt.block_on(async {
+                    match self.sm.load_symbol_map(&m.debug_name, id).await {
+                        Err(_) => ("nosymbols".to_string(), Vec::new()),
+                        Ok(map) => {
+                            loaded = format!("loaded {},l,{}", map.debug_id().breakpad().to_string().to_uppercase(), hx(sym_path));
+                            match map.lookup(LookupAddress::Relative(o)).await {
+                                None => ("notfound".to_string(), Vec::new()),
+                                Some(ai) => match ai.frames {
+                                    None => ("noframes".to_string(), Vec::new()),
+                                    Some(fr) => (
+                                        "frames".to_string(),
+                                        fr.into_iter()
+                                            .map(|f| f.file_path.map(|fp| SourceFilePath::new(ws_virtual(fp.raw_path(), &self.root), fp.mapped_path().cloned())))
+                                            .collect(),
+                                    ),
+                                },
+                            }
+                        }
+                    }
+                })
+            })
+            .collect();
+        (loaded, looks)
+    }
+    /// what the operating system reads for exactly this path string
+    fn os_read(&self, virtual_path: &str) -> Option<usize> {
+        std::fs::read(ws_real(virtual_path, &self.root)).ok().map(|b| b.len())
+    }
+    fn symbolicate(&self, m: &ModuleSpec, offsets: &[u32], addrs: &[u32], stats: Option<&mut Stats>) -> Vec<String> {
+        symbolicate_lines_with(&|body| self.query("/symbolicate/v5", body).map(|r| ws_virtual(&r, &self.root)), m, offsets, addrs, stats)
+    }
+}
+
+/// `Path::components`-style lexical tidying (drop `.`, pop on `..`): what a path is NOT allowed to go through
+fn lexically_tidied(p: &str) -> String {
+    let abs = p.starts_with('/');
+    let mut out: Vec<&str> = Vec::new();
+    for c in p.split('/') {
+        match c {
+            "" | "." => {}
+            ".." => {
+                if out.pop().is_none() && !abs {
+                    out.push("..");
+                }
+            }
+            c => out.push(c),
+        }
+    }
+    format!("{}{}", if abs { "/" } else { "" }, out.join("/"))
+}
+
+/// the spellings a FILE record can have: (raw path, family)
+const WS_SPELLINGS: [(&str, &str); 21] = [
+    ("/ROOT/src/link/../prog.c", "symlink-dotdot"),
+    ("/ROOT/src/a/up/../prog.c", "symlink-dotdot"),
+    ("/ROOT/src/link/../../src/real/prog.c", "symlink-dotdot"),
+    ("/ROOT/src/real/sub/../prog.c", "dotdot"),
+    ("/ROOT/src/a/b/../y.c", "dotdot"),
+    ("/ROOT/src/./real/prog.c", "dot"),
+    ("/ROOT/src/real/./prog.c", "dot"),
+    ("/ROOT/src//real//prog.c", "slashes"),
+    ("/ROOT/src/real/prog.c/.", "trailing-dot"),
+    ("/ROOT/src/real/prog.c/", "trailing-slash"),
+    ("/ROOT/src/a/b/.", "directory"),
+    ("/ROOT/src/a/b/x.h", "plain"),
+    ("/ROOT/src/real/prog.c", "plain"),
+    ("/ROOT/src/flink.c", "file-symlink"),
+    ("/ROOT/src/missing.c", "missing"),
+    ("lnk/../prog.c", "rel-symlink-dotdot"),
+    ("../src/link/../prog.c", "rel-symlink-dotdot"),
+    ("../src/real/prog.c", "rel-dotdot"),
+    ("rel.c", "rel"),
+    ("./rel.c", "rel-dot"),
+    ("sub/none.c", "rel-missing"),
+];
+
+/// a case of the real-wholesym family; `force` = index into WS_SPELLINGS that must be a FILE record,
+/// `decoys` = whether unrelated files sit at the lexically collapsed locations
+fn ws_build_case(rng: &mut Rng, tier: Tier, force: Option<usize>, decoys: Option<bool>) -> Vec<String> {
+    let name = format!("wslib{}", rng.below(100));
+    let id = format!("{:016X}{:016X}{:X}", rng.next_u64() | 1, rng.next_u64(), rng.below(16));
+    // ---- file system
+    let mut len = 40 + rng.below(20) as usize;
+    let mut next_len = |rng: &mut Rng| {
+        len += 3 + rng.below(9) as usize;
+        len
+    };
+    let mut fs = vec![
+        FsEntry::Dir("/ROOT/sym".into()),
+        FsEntry::Dir("/ROOT/src/real/sub".into()),
+        FsEntry::Dir("/ROOT/src/a/b".into()),
+        FsEntry::File("/ROOT/src/real/prog.c".into(), next_len(rng)),
+        FsEntry::File("/ROOT/src/a/b/x.h".into(), next_len(rng)),
+        FsEntry::File("/ROOT/src/a/y.c".into(), next_len(rng)),
+        FsEntry::File("/ROOT/sym/rel.c".into(), next_len(rng)),
+        // directories reached through a symlink have another parent than the symlink's own directory
+        FsEntry::Link("/ROOT/src/link".into(), "real/sub".into()),
+        FsEntry::Link("/ROOT/src/a/up".into(), "../real/sub".into()),
+        FsEntry::Link("/ROOT/sym/lnk".into(), "../src/real/sub".into()),
+        FsEntry::Link("/ROOT/src/flink.c".into(), "real/prog.c".into()),
+    ];
+    // unrelated files where a lexical collapse of `..` would point to
+    for decoy in ["/ROOT/src/prog.c", "/ROOT/src/a/prog.c", "/ROOT/sym/prog.c"] {
+        if decoys.unwrap_or_else(|| rng.chance(1, 2)) {
+            fs.push(FsEntry::File(decoy.into(), next_len(rng)));
+        }
+    }
+    // ---- FILE records
+    let mut idx: Vec<usize> = (0..WS_SPELLINGS.len()).collect();
+    rng.shuffle(&mut idx);
+    idx.truncate(rng.range(2, 5) as usize);
+    match force {
+        Some(f) if !idx.contains(&f) => idx.insert(0, f),
+        None if rng.chance(2, 3) && !idx.iter().any(|i| WS_SPELLINGS[*i].1.contains("symlink-dotdot")) => {
+            idx.insert(0, *rng.pick(&[0usize, 1, 2, 15, 16]))
+        }
+        _ => {}
+    }
+    let files: Vec<&str> = idx.iter().map(|i| WS_SPELLINGS[*i].0).collect();
+    let mut text = format!("MODULE Linux x86_64 {id} {name}\nINFO GENERATOR verif\n");
+    for (i, f) in files.iter().enumerate() {
+        text.push_str(&format!("FILE {i} {f}\n"));
+    }
+    text.push_str("INLINE_ORIGIN 0 inlined_0()\n");
+    let nrec = files.len() as u32 + rng.below(2) as u32;
+    text.push_str(&format!("FUNC 1000 {:x} 0 ws_func()\n", nrec * 16));
+    // the first record lies in an inlined call whose call site is in another file
+    text.push_str(&format!("INLINE 0 7 {} 0 1000 10\n", (files.len() - 1).min(1)));
+    let mut starts = Vec::new();
+    for r in 0..nrec {
+        let a = 0x1000 + r * 16;
+        starts.push(a);
+        text.push_str(&format!("{a:x} 10 {} {}\n", 10 + r, r as usize % files.len()));
+    }
+    let m = ModuleSpec { kind: ModuleKind::Sym(Bytes(Arc::new(text.into_bytes()))), debug_name: name.clone(), breakpad_id: id };
+    let sym_path = format!("/ROOT/sym/{name}");
+    let env = match ws_setup(&m, &sym_path, &fs) {
+        Some(e) => e,
+        None => return vec!["bad-op".to_string()],
+    };
+    // ---- offsets, oracle
+    // record 0 names FILE 0 (the forced / symlink spelling) and lies in the inlined call
+    let mut offsets: Vec<u32> = Vec::new();
+    if force.is_some() || rng.chance(2, 3) {
+        offsets.push(0x1000 + rng.below(3) as u32);
+    }
+    for _ in 0..gen_noffsets(rng).min(3) {
+        let o = if rng.chance(1, 10) { 0x900 + rng.below(0x400) as u32 } else { *rng.pick(&starts) + rng.below(3) as u32 };
+        if !offsets.contains(&o) {
+            offsets.push(o);
+        }
+    }
+    let (loaded, looks) = env.oracle(&m, &sym_path, &offsets);
+    let syms = env.symbolicate(&m, &offsets, &batch_addresses(&offsets), None);
+    let mut ops = vec![module_line(&m), ws_helper_line(&sym_path, &fs), loaded, lookup_line(&offsets, &looks)];
+    // ---- requests
+    let mut lines: Vec<String> = Vec::new();
+    let nvar = if tier == Tier::Thorough { 6 } else { 4 };
+    for (i, &o) in offsets.iter().enumerate() {
+        let own: Vec<String> = looks[i].1.iter().flatten().map(|fp| fp.raw_path().to_string()).collect();
+        for f in sym_files(&syms[i]) {
+            lines.push(format!("req {o} {} reported", hx(&f)));
+        }
+        for raw in &own {
+            // the collapsed spelling and the resolved location are not debug-info paths
+            let t = lexically_tidied(raw);
+            if t != *raw {
+                lines.push(format!("req {o} {} collapsed", hx(&t)));
+            }
+            if !raw.starts_with('/') {
+                lines.push(format!("req {o} {} joined", hx(&format!("/ROOT/sym/{raw}"))));
+            }
+        }
+        for f in files.iter().filter(|f| !own.iter().any(|r| r == *f)) {
+            lines.push(format!("req {o} {} other-offset", hx(f)));
+        }
+        lines.push(format!("req {o} {} arbitrary", hx(*rng.pick(&["/ROOT/src/prog.c", "/ROOT/src/real/prog.c", "/etc/passwd", "prog.c", "../src/prog.c"]))));
+        let mut all_vars = Vec::new();
+        for raw in &own {
+            all_vars.extend(variants(rng, raw));
+        }
+        for (f, tag) in sample(rng, &mut all_vars, nvar) {
+            lines.push(format!("req {o} {} {tag}", hx(&f)));
+        }
+        if rng.chance(1, 4) {
+            if let Some(raw) = own.first() {
+                lines.push(format!("reqbadid {o} {} badid", hx(raw)));
+            }
+        }
+    }
+    rng.shuffle(&mut lines);
+    // ---- what the OS reads for exactly these strings (relative ones from the debug file's directory)
+    let mut cand: BTreeSet<String> = BTreeSet::new();
+    for f in files.iter().map(|f| f.to_string()).chain(lines.iter().filter_map(|l| l.split_whitespace().nth(2).map(unhx))) {
+        let resolved = if f.starts_with('/') { f.clone() } else { format!("/ROOT/sym/{f}") };
+        cand.insert(lexically_tidied(&resolved));
+        cand.insert(resolved);
+    }
+    let mut store = String::from("store wholesym aux");
+    for p in cand {
+        if let Some(n) = env.os_read(&p) {
+            store.push_str(&format!(" {}:{n}", hx(&p)));
+        }
+    }
+    ops.push(store);
+    ops.extend(lines);
+    ops
+}
+
+fn ws_execute(ops: &[String], stats: &mut Stats) -> Vec<String> {
+    let mut out = Vec::new();
+    let parsed = (|| {
+        let m = parse_module_line(&ops[0])?;
+        let (sym_path, fs) = ws_parse_helper(&ops[1])?;
+        let groups = parse_lookup_line(&ops[3])?;
+        Some((m, sym_path, fs, groups))
+    })();
+    let (m, sym_path, fs, groups) = match parsed {
+        Some(x) => x,
+        None => return vec!["bad-op".to_string()],
+    };
+    let env = match ws_setup(&m, &sym_path, &fs) {
+        Some(e) => e,
+        None => return vec!["bad-op".to_string()],
+    };
+    let offsets: Vec<u32> = groups.iter().map(|g| g.0).collect();
+    stats.bump("module_sym_real_wholesym");
+    stats.bump(&format!("offsets_{}", offsets.len()));
+    stats.bump("policy_wholesym_real");
+    // the oracle lines must describe the real code and the real file system
+    let (loaded, looks) = env.oracle(&m, &sym_path, &offsets);
+    let mut stale = loaded != ops[2] || lookup_line(&offsets, &looks) != ops[3];
+    let listed: HashMap<String, usize> =
+        ops[4].split_whitespace().skip(3).filter_map(|t| t.split_once(':')).filter_map(|(p, n)| Some((unhx(p), n.parse().ok()?))).collect();
+    for (p, n) in &listed {
+        stale |= env.os_read(p) != Some(*n);
+    }
+    for raw in looks.iter().flat_map(|(_, fr)| fr.iter().flatten()).map(|fp| fp.raw_path().to_string()) {
+        let resolved = if raw.starts_with('/') { raw.clone() } else { format!("{}/{raw}", dir_of(&sym_path)) };
+        stale |= env.os_read(&resolved) != listed.get(&resolved).copied();
+        let fam = WS_SPELLINGS.iter().find(|(s, _)| *s == raw).map(|(_, f)| *f).unwrap_or("other");
+        stats.bump(&format!("ws_frame_{fam}"));
+        if env.os_read(&resolved) != env.os_read(&lexically_tidied(&resolved)) {
+            stats.bump("ws_frame_os_and_lexical_reading_differ");
+        }
+    }
+    if stale {
+        out.push("oracle-mismatch".to_string());
+        stats.bump("oracle_mismatch");
+    }
+    let addrs = batch_addresses(&offsets);
+    let syms = env.symbolicate(&m, &offsets, &addrs, Some(stats));
+    for ((o, class, frames), sym) in groups.iter().zip(&syms) {
+        stats.bump(&format!("lookup_{class}"));
+        stats.bump(&format!("frames_{:02}", frames.len().min(12)));
+        let mut api = format!("api {o}");
+        for f in frames {
+            api.push(' ');
+            match f {
+                None => api.push('~'),
+                Some(fp) => api.push_str(&hx(&to_api_file_path(fp))),
+            }
+        }
+        out.push(api);
+        stats.bump(if sym.ends_with(" -") { "sym_nothing" } else { "sym_files" });
+        out.push(sym.clone());
+    }
+    for l in &ops[5..] {
+        let w: Vec<&str> = l.split_whitespace().collect();
+        let (o, f) = match (w.get(1).and_then(|s| s.parse::<u32>().ok()), w.get(2)) {
+            (Some(o), Some(f)) => (o, unhx(f)),
+            _ => {
+                out.push("bad-op".to_string());
+                continue;
+            }
+        };
+        let file = ws_real(&f, &env.root);
+        let body = request_body(w[0], &m, o, &file);
+        match env.query("/source/v1", &body) {
+            Some(resp) => {
+                let cls = classify(&resp, &file);
+                stats.bump(&format!("req_{}", w.get(3).copied().unwrap_or(w[0])));
+                stats.bump(&format!("ws_resp_{}", if cls.starts_with("ok:") { "ok" } else { cls.as_str() }));
+                out.push(format!("r {cls}"));
+            }
+            None => {
+                stats.bump("panics");
+                out.push("panic".to_string());
+            }
+        }
+    }
+    let again = env.symbolicate(&m, &offsets, &addrs, None);
+    if again != syms {
+        out.push("sym-unstable".to_string());
+    }
+    out
+}
+
+// ---------------------------------------------------------------------------------------------
 // execution
 // ---------------------------------------------------------------------------------------------
 
@@ -1657,6 +2077,13 @@ impl Prop for C09 {
         // takes the offset, a close neighbour and (every second case) a far one
         let per = if tier == Tier::Thorough { 40 } else { 6 };
         let mut v = Vec::new();
+        // real wholesym: every spelling family once with and once without the decoy files
+        for (k, _) in WS_SPELLINGS.iter().enumerate() {
+            for decoys in [true, false] {
+                let mut rng = Rng::for_case(0xC093, (k * 2 + decoys as usize) as u64);
+                v.push(Case { name: format!("ws{k}-{}", if decoys { "decoy" } else { "nodecoy" }), ops: ws_build_case(&mut rng, tier, Some(k), Some(decoys)) });
+            }
+        }
         for (i, f) in fixtures().iter().enumerate() {
             if f.offsets.is_empty() {
                 continue;
@@ -1678,10 +2105,12 @@ impl Prop for C09 {
         v
     }
     fn generate(&self, rng: &mut Rng, tier: Tier, _index: u64) -> Vec<String> {
-        let family = match rng.below(20) {
+        let family = match rng.below(22) {
             0..=8 => 0,
             9..=14 => 1,
-            _ => 2,
+            15..=19 => 2,
+            // real wholesym over real files with symlinks
+            _ => return ws_build_case(rng, tier, None, None),
         };
         gen_case(rng, tier, family)
     }
@@ -1689,6 +2118,9 @@ impl Prop for C09 {
         let mut out = Vec::new();
         if ops.len() < 5 {
             return vec!["bad-op".to_string()];
+        }
+        if ops[1].starts_with("helper w ") {
+            return ws_execute(ops, stats);
         }
         let parsed = (|| {
             let m = parse_module_line(&ops[0])?;
@@ -1891,7 +2323,7 @@ impl Prop for C09 {
     }
     fn nontrivial(&self, _ops: &[String], out: &[String]) -> bool {
         // at least one request read a source file and at least one was refused
-        out.iter().any(|l| l.starts_with("r ") && l.split_whitespace().count() > 2)
+        out.iter().any(|l| (l.starts_with("r ") && l.split_whitespace().count() > 2) || l.starts_with("r ok:"))
             && out.iter().any(|l| l.starts_with("r err:invalid-path"))
     }
 }
